@@ -135,6 +135,23 @@ CHECKS = {
              "reading of MPI-3.1, cross-checked against Open MPI 4.1.4 on every run); MPI_Send/MPI_Recv between two processes are "
              "not run (MPI_Pack/MPI_Unpack on the same messages are); zero-based views only (C19 owns index bases); no int/MPI_Aint "
              "overflow; mpi::data(iterator) ignores the stride (recorded observation, outside the statement; the suite expects it)"),
+    "C16": dict(
+        text="A finite automaton astep : state -> operation -> outcome over (library kind, top-level const, value category, "
+             "pointer-to-const, rank) models overload resolution of every access operation; C16_const_propagates (Coq): along "
+             "paths of ANY length and for every rank, an expression typed read-only only yields read-only expressions and none "
+             "accepts =, fill or swap, for paths that never call const_iterator::base() (the one remaining hole: "
+             "C16_const_propagates_refuted, known finding); C16_mutable_paths; C16_no_rebind / C16_view_assignment; "
+             "C16_repaired_sites_are_clean. The one-step invariant is checked over all table rows by vm_compute and lifted. The "
+             "table is tied EXHAUSTIVELY to the library: one compiled C++ probe per (state, operation) row (14 172 rows in quick, "
+             "incl. must-fail compilations for hard errors) must classify as the model says; independently every access path of "
+             "depth <= 2 (quick) / <= 3 (thorough, ~10^6 expressions) from the six root kinds is compiled and checked for "
+             "writability. Five const holes found by this check were fixed in /repo.",
+        design_ref="5/C16", technique="Coq proof (induction over access paths from a one-step invariant discharged by vm_compute over "
+                                      "the finite table) + exhaustive compile-time probes of every table row + direct enumeration "
+                                      "of the property's path space",
+        note="the all-depths theorem is over a finite table; the table is tied exhaustively for D 1..3 (4 in thorough) and int "
+             "elements, other element types are assumed not to change overload resolution; g++ 12; nine view-forming operations "
+             "that lose mutability from a mutable receiver and const_iterator::base() are recorded known findings"),
 }
 
 NOT_YET = {
